@@ -61,7 +61,8 @@ def run_unify(ctx, n):
     reqs, meta = [], []
     for k in range(n):
         nd = ctx.rng.choice([1, 1, 2, 2, 3])
-        types = [ptgen.random_type(ctx.rng, depth=ctx.rng.choice([1, 2, 2, 3]), sizes=[1, 2, 3, 2, 4]) for _ in range(nd)]
+        types = [ptgen.random_type(ctx.rng, depth=ctx.rng.choice([1, 2, 2, 3]), sizes=[1, 2, 3, 2, 4], p_unit_sum=0.12 if k % 3 == 0 else 0.0)
+                 for _ in range(nd)]
         if math.prod(ptgen.ty_numel(t) for t in types) > 3000:
             continue
         pool1, pool2 = [], []
@@ -113,13 +114,25 @@ def run_unify(ctx, n):
             ctx.disagree('Un.unifyAll: clone(subst) of the operands', case, out, ' '.join(toks[1:]))
 
 
+def norm1(e):
+    from fggs.indices import ProductAxis, SumAxis, unitAxis, productAxis
+    if e.numel() == 1:
+        return unitAxis
+    if isinstance(e, ProductAxis):
+        return productAxis([norm1(f) for f in e.factors])
+    if isinstance(e, SumAxis):
+        return SumAxis(e.before, norm1(e.term), e.after)
+    return e
+
+
 def run_antiunify(ctx, n):
     """Axis.antiunify against `Un.antiunifyAll`, and its specification: the result g with the anti-substitution
     (theta1, theta2) satisfies g[theta1] = e and g[theta2] = f, hence covers the union of the two patterns"""
     reqs, meta = [], []
     for k in range(n):
         nd = ctx.rng.choice([1, 1, 2, 2, 3])
-        types = [ptgen.random_type(ctx.rng, depth=ctx.rng.choice([1, 2, 2, 3]), sizes=[1, 2, 3, 2, 4]) for _ in range(nd)]
+        types = [ptgen.random_type(ctx.rng, depth=ctx.rng.choice([1, 2, 2, 3]), sizes=[1, 2, 3, 2, 4], p_unit_sum=0.12 if k % 3 == 0 else 0.0)
+                 for _ in range(nd)]
         if math.prod(ptgen.ty_numel(t) for t in types) > 3000:
             continue
         pool1, pool2 = [], []
@@ -145,10 +158,11 @@ def run_antiunify(ctx, n):
         th1 = {k_: v[0] for k_, v in anti[1].items()}
         th2 = {k_: v[1] for k_, v in anti[1].items()}
         i1, i2 = dict(ids), dict(ids)
-        back_e = enc_list([g.clone(th1) for g in gs], lambda e: ptgen.enc_axis(e, i1))
-        back_f = enc_list([g.clone(th2) for g in gs], lambda e: ptgen.enc_axis(e, i2))
-        want_e = enc_list(es, lambda e: ptgen.enc_axis(e, i1))
-        want_f = enc_list(fs, lambda e: ptgen.enc_axis(e, i2))
+        # (an axis with ONE element denotes the constant index 0 however it is spelt: compared as the unit axis)
+        back_e = enc_list([norm1(g.clone(th1)) for g in gs], lambda e: ptgen.enc_axis(e, i1))
+        back_f = enc_list([norm1(g.clone(th2)) for g in gs], lambda e: ptgen.enc_axis(e, i2))
+        want_e = enc_list([norm1(e) for e in es], lambda e: ptgen.enc_axis(e, i1))
+        want_f = enc_list([norm1(e) for e in fs], lambda e: ptgen.enc_axis(e, i2))
         if back_e != want_e or back_f != want_f:
             ctx.fail('Axis.antiunify: instantiating the generalisation with the anti-substitution does not give the operands back', case,
                      [back_e, back_f], [want_e, want_f], tags=['antiunify', 'not-generalisation'])
